@@ -175,6 +175,16 @@ def main(argv=None) -> int:
             for x in al[:5]:
                 sv["failures"].append({"benign": "all-locals-renamed", "state": "ran", "new_violations": [x], "errors": [],
                                        "why": "renaming local variables (behaviour preserved) changed a verdict: the rule depends on what a local is called"})
+            from .alpha import VARIANTS, transform
+            sv["whole_tree_variants"] = {}
+            for kind in VARIANTS:
+                ref = {(o.rule, o.key, o.outcome) for o in ctx.obs}
+                vctx = run_rules(prop, transform(SourceTree(REPO), kind))
+                new = [(o.outcome, o.rule, o.key, o.file, o.line, o.msg[:200]) for o in vctx.obs if o.outcome != OK and (o.rule, o.key, o.outcome) not in ref]
+                sv["whole_tree_variants"][kind] = len(new)
+                for x in new[:3]:
+                    sv["failures"].append({"benign": f"whole-tree:{kind}", "state": "ran", "new_violations": [x], "errors": [],
+                                           "why": "an equivalent spelling (operand order of ==, `in d.keys()`, swapped if/else arms) changed a verdict"})
         except Exception as e:
             print(f"ANALYSIS-ERROR property={prop} self-validation crashed: {type(e).__name__}: {e}")
             traceback.print_exc()
@@ -268,7 +278,8 @@ def main(argv=None) -> int:
               f"({sv['mutants_inapplicable']} inapplicable to this tree), benign variants "
               f"{sv['benign_silent']}/{sv['benign_total']} silent ({sv['benign_inapplicable']} inapplicable)"
               + (f"; inapplicable: {', '.join(sv['inapplicable'])}" if sv["inapplicable"] else "")
-              + f"; all-locals-renamed variant: {sv.get('alpha_renaming_new_alarms', 0)} new alarms")
+              + f"; all-locals-renamed variant: {sv.get('alpha_renaming_new_alarms', 0)} new alarms"
+              + f"; whole-tree variants {sv.get('whole_tree_variants', {})}")
     for l in lines:
         print(l)
     if unlisted:
